@@ -205,15 +205,32 @@ func describableScope(g *hx.Gen) *hx.Ty {
 func wlRebuilt(g *hx.Gen, k int) workload {
 	t := describableScope(g)
 	calls := valueCalls(g, t, k)
-	return workload{kind: "rebuilt", ty: t, rebuilt: true, build: func() ([]thunk, error) {
+	// UnserializeScope links the references and fills the objects' default values; unserializing with the
+	// scope meta-schema and linking by hand leaves the defaults to the first use (the lazy path)
+	raw := g.R.Intn(2) == 0
+	kind := "rebuilt"
+	if raw {
+		kind = "rebuilt-lazy"
+	}
+	return workload{kind: kind, ty: t, rebuilt: true, build: func() ([]thunk, error) {
 		orig := t.Build().(*schema.ScopeSchema)
 		desc, err := orig.SelfSerialize()
 		if err != nil {
 			return nil, err
 		}
-		s, err := schema.UnserializeScope(desc)
-		if err != nil {
-			return nil, err
+		var s *schema.ScopeSchema
+		if raw {
+			u, err := schema.DescribeScope().Unserialize(desc)
+			if err != nil {
+				return nil, err
+			}
+			s = u.(*schema.ScopeSchema)
+			s.ApplySelf()
+		} else {
+			s, err = schema.UnserializeScope(desc)
+			if err != nil {
+				return nil, err
+			}
 		}
 		var ts []thunk
 		for _, c := range calls {
@@ -563,7 +580,7 @@ func wlSteps(g *hx.Gen, k int) workload {
 
 // ---- trial ------------------------------------------------------------------------------------
 
-func runTrial(seed int64, trial int, maxG int, only string) trialRec {
+func runTrial(seed int64, trial int, maxG int, only string, sequential bool) trialRec {
 	g := hx.NewGen(seed*1000003 + int64(trial))
 	G := 2 + g.R.Intn(maxG-1)
 	K := G * (1 + g.R.Intn(4))
@@ -615,6 +632,14 @@ func runTrial(seed int64, trial int, maxG int, only string) trialRec {
 		rec.Ops = append(rec.Ops, t.op)
 	}
 	resC := make([]string, len(conc))
+	if sequential { // control run: the same calls in goroutine order, one after the other
+		for j := 0; j < G; j++ {
+			for i := j; i < len(conc); i += G {
+				resC[i] = guard(conc[i].f)
+			}
+		}
+		G = 0
+	}
 	var ready, done sync.WaitGroup
 	start := make(chan struct{})
 	for j := 0; j < G; j++ {
@@ -641,7 +666,7 @@ func runTrial(seed int64, trial int, maxG int, only string) trialRec {
 		return rec
 	}
 	if dup {
-		for j := 1; j < G; j++ {
+		for j := 1; j < rec.Goroutines; j++ {
 			seq[j] = seq[0]
 		}
 	}
@@ -670,10 +695,11 @@ func main() {
 	trials := flag.Int("trials", 8, "trials in this process")
 	maxG := flag.Int("maxg", 16, "maximal number of goroutines")
 	only := flag.String("only", "", "only workloads whose kind has this prefix")
+	sequential := flag.Bool("sequential", false, "control run: no goroutines, the same calls one after the other")
 	flag.Parse()
 	enc := json.NewEncoder(os.Stdout)
 	for t := 0; t < *trials; t++ {
-		rec := runTrial(*seed, t, *maxG, *only)
+		rec := runTrial(*seed, t, *maxG, *only, *sequential)
 		if err := enc.Encode(rec); err != nil {
 			panic(err)
 		}
